@@ -230,12 +230,17 @@ class ResourceMap:
         # Code is duplicated for extra performance
         keys = key.split(self.split_char)
         last_key = keys[-1]
-        target_map = self
+        target_map = parent_map = self
         # Last key is queried at last, as the value has to be
         # discriminated between handles and maps.
         for subkey in keys[:-1]:
             target_map.handles.pop(subkey, None)    # Overwrite duplicates
             target_map = target_map.maps.setdefault(subkey, ResourceMap())
+            # Intermediate maps (possibly just created) are resources
+            # of the map they are reached from
+            target_map.parent = parent_map
+            target_map.key = subkey
+            parent_map = target_map
 
         # For better performance, only one type check is done at this
         # point.
